@@ -1,7 +1,7 @@
 """C03 — the public input is Keccak of the canonical on-chain packing (DESIGN.md §5 C03)."""
 import copy, json
 from concurrent.futures import ThreadPoolExecutor
-from vlib import Infra
+from vlib import Infra, rng
 from props import c08
 
 LEVEL = "model_checking"
@@ -26,10 +26,13 @@ def run(ctx):
     if len(hs0) != len(small):
         raise Infra("PackingMC permutation run returned %d of %d" % (len(hs0), len(small)))
     # code side: valid witnesses (one- and multi-block hash inputs, value classes, extreme indices)
-    dims = [["insertion", 2, 2, "rand"], ["insertion", 2, 3, "rand"], ["deletion", 2, 2, "rand"], ["deletion", 5, 18, "rand"]]
+    # hash inputs of one, two, three and more Keccak blocks (136 bytes each): insertion 4+64+32b bytes, deletion 64+4b bytes
+    dims = [["insertion", 2, 2, "rand"], ["insertion", 2, 3, "rand"], ["deletion", 2, 2, "rand"], ["deletion", 5, 18, "rand"],
+            ["insertion", 3, 7, "rand"], ["deletion", 2, 53, "rand"]]
     if not ctx.quick:
         dims += [["insertion", 1, 1, "rand"], ["insertion", 3, 4, "rand"], ["insertion", 32, 1, "lastleaf"], ["insertion", 4, 8, "lastleaf"], ["deletion", 31, 2, "maxpad"],
-                 ["deletion", 3, 3, "rand"], ["deletion", 6, 19, "rand"], ["insertion", 16, 2, "rand"]]
+                 ["deletion", 3, 3, "rand"], ["deletion", 6, 19, "rand"], ["insertion", 16, 2, "rand"], ["insertion", 4, 12, "rand"], ["insertion", 4, 16, "rand"],
+                 ["deletion", 3, 87, "rand"], ["deletion", 2, 120, "rand"]]
     ws = ctx.run_vh(["c03-gen"], dict(dims=dims), timeout=1200)
     if len(ws) != len(dims):
         raise Infra("c03-gen returned %d witnesses" % len(ws))
@@ -37,6 +40,11 @@ def run(ctx):
     for w in ws:
         base = case_of(w)
         fields = [("pre", None), ("post", None)] + ([("start", None)] + [("ids", i) for i in range(len(base["ids"]))] if w["mode"] == "insertion" else [("idxs", i) for i in range(len(base["idxs"]))])
+        if len(fields) > 14:
+            # large batches: roots, start, and positions in every Keccak block (first, second, middle, last two, three random)
+            arr = [x for x in fields if x[1] is not None]
+            keep = {0, 1, len(arr) // 2, len(arr) - 2, len(arr) - 1} | set(rng(ctx, "c03-" + w["id"]).sample(range(len(arr)), 3))
+            fields = [x for x in fields if x[1] is None] + [arr[k] for k in sorted(keep)]
         entries = [("base", base, None)]
         for f, i in fields:
             c = copy.deepcopy(base)
